@@ -68,8 +68,18 @@ func main() {
 		answers = nil
 	}
 
+	leaks := map[string]int{}
 	for i, c := range cases {
+		if leaks[c.fn()] >= 25 {
+			// every leaked goroutine stays in all later snapshots; after 25 leaking cases of one entry
+			// point (the run has failed on it anyway) its remaining cases are skipped to keep the run short
+			mon.Count("skipped-after-25-leaking-cases:" + c.fn())
+			continue
+		}
 		o := runCase(c)
+		if len(o.Left) > 0 {
+			leaks[c.fn()]++
+		}
 		code := o.canon(c)
 		t := rnd
 		nontrivial := c.n() >= 2
@@ -126,7 +136,7 @@ func exhaustiveCases(f lib.Flags) []tcase {
 		maxN       int
 	}
 	combos := []as{{"x", "all", 4}, {"x", "most", 4}, {"x", "any", 4}, {"x", "one", 4}, {"x", "fast", 4}, {"x", "race", 4},
-		{"x", "unspec", 4}, {"x", "other", 4},
+		{"x", "unspec", 3}, {"x", "other", 3},
 		{"d", "all", 4}, {"d", "most", 4}, {"d", "any", 4}, {"d", "one", 4}, {"d", "fast", 4}, {"d", "race", 4}, {"d", "upto", 4}}
 	var out []tcase
 	for n := 0; n <= 4; n++ { // small cases first: the first input per signature becomes the replay
